@@ -113,6 +113,23 @@ static void phase_core_trees(int tmax, const vector<Cfg> &cfgs) {
         }
     }
 }
+
+// every labelled connected LEAFLESS graph on n0 nodes as core, with every hanging forest of 1..tmax further nodes
+static void phase_leafless_cores(int n0, int tmax, const vector<Cfg> &cfgs) {
+    EL all; for (int i = 0; i < n0; i++) for (int j = i + 1; j < n0; j++) all.push_back({i, j});
+    ctx.phase(mcx::fmt("every labelled connected leafless graph on %d nodes as core, with every hanging forest of 1..%d further nodes x %zu configurations", n0, tmax, cfgs.size()));
+    for (unsigned mask = 1; mask < (1u << all.size()) && !ctx.stopped(); mask++) {
+        EL core; vector<int> deg(n0, 0); for (size_t k = 0; k < all.size(); k++) if (mask >> k & 1) { core.push_back(all[k]); deg[all[k].first]++; deg[all[k].second]++; }
+        bool ok = connected(n0, core); for (int d : deg) if (d < 2) ok = false; if (!ok) continue;
+        for (int t = 1; t <= tmax; t++) { vector<int> par(t, 0);
+            while (true) {
+                if (ctx.stopped()) return;
+                int n = n0 + t; EL es = core; for (int k = 0; k < t; k++) es.push_back({par[k], n0 + k});
+                for (auto &c : cfgs) { if (!ctx.next()) continue; ctx.count("states"); ctx.count("nontrivial"); ctx.sample(gstr(n, es) + " " + cfg_str(c), 1); run_one(n, es, c); ctx.done_case(); }
+                int k = t - 1; while (k >= 0 && ++par[k] == n0 + k) { par[k] = 0; k--; } if (k < 0) break;
+            } }
+    }
+}
 int main(int argc, char **argv) {
     ctx.init(argc, argv); ctx.viol_cap = 1000000;   // every failing input is recorded (some known findings list specific inputs)
     bool T = ctx.thorough();
@@ -121,7 +138,8 @@ int main(int argc, char **argv) {
     vector<Cfg> mid; for (int st = 0; st < 3; st++) for (int sz = 0; sz < 2; sz++) for (int aca = 0; aca < 2; aca++) mid.push_back({st, sz, (bool)aca, true, st, 0});
     phase(2, full, "all"); phase(3, full, "all"); phase(4, full, "all");
     phase(5, links, "link mode x near-align, circle start");
-    { vector<Cfg> ct; for (int aca = 0; aca < 2; aca++) for (int as = 0; as < 3; as++) ct.push_back({0, 0, (bool)aca, true, as, 0}); phase_core_trees(T ? 5 : 4, ct); }
+    { vector<Cfg> ct; for (int aca = 0; aca < 2; aca++) for (int as = 0; as < 3; as++) ct.push_back({0, 0, (bool)aca, true, as, 0}); phase_core_trees(T ? 5 : 4, ct);
+      vector<Cfg> c2 = {{0, 0, true, true, 0, 0}, {0, 0, false, true, 0, 0}}; phase_leafless_cores(4, 2, ct); phase_leafless_cores(5, 1, c2); if (T) phase_leafless_cores(5, 2, c2); }
     if (T) { phase(5, mid, "starts x sizes x link mode"); phase(6, {{0, 0, true, true, 0, 0}, {0, 0, false, true, 0, 0}}, "link mode, circle start"); phase(6, {{1, 1, true, true, 1, 0}, {2, 1, false, false, 2, 0}}, "coincident/line starts, mixed sizes"); }
     return ctx.finish();
 }
